@@ -327,6 +327,9 @@ class cisco_type7(uh.GenericHandler):
             raise uh.exc.InvalidHashError(cls)
         if not (hash[:2].isascii() and hash[:2].isdigit()):
             raise uh.exc.MalformedHashError(cls, "malformed salt field")
+        if not hash.isascii():
+            # NOTE: upper() maps some non-ascii chars (e.g. u"\ufb00") to ascii hex digits
+            raise uh.exc.MalformedHashError(cls, "non-ascii characters")
         salt = int(hash[:2])
         return cls(salt=salt, checksum=hash[2:].upper())
 
